@@ -194,9 +194,9 @@ func leftSpineSQL(e Expression) string {
 			sb.WriteString("CAST(")
 			inner, min = v.Expr, 0
 		case *ArraySubscriptExpression:
-			inner, min = v.Array, precPrimary
+			inner, min = v.Array, subscriptBaseMin(v.Array)
 		case *ArraySliceExpression:
-			inner, min = v.Array, precPrimary
+			inner, min = v.Array, subscriptBaseMin(v.Array)
 		}
 		if !isSpineNode(inner) {
 			sb.WriteString(operandSQL(inner, min))
@@ -237,6 +237,18 @@ func leftSpineSQL(e Expression) string {
 		}
 	}
 	return sb.String()
+}
+
+// subscriptBaseMin is the precedence a subscript's base must have to be written
+// bare: the parser takes a subscript after a name, another subscript or a
+// parenthesis only, so a cast, a call or an ARRAY[...] in that place is
+// parenthesised: (x::int[])[1] must not come out as CAST(x AS int[])[1].
+func subscriptBaseMin(base Expression) int {
+	switch base.(type) {
+	case *Identifier, *ArraySubscriptExpression, *ArraySliceExpression:
+		return precPrimary
+	}
+	return precPrimary + 1
 }
 
 // operatorText returns the operator as it is printed.
